@@ -480,6 +480,7 @@ static int count_msa(ESL_MSA *msa, char *errbuf, int nali, int no_ambig, int use
   /* allocate and initialize bp_ct, if nec */
   if(ret_bp_ct != NULL) { 
     ESL_ALLOC(bp_ct,  sizeof(double **) * msa->alen); 
+    for(apos = 0; apos < msa->alen; apos++) bp_ct[apos] = NULL;   /* so that the ERROR: cleanup can free a partially built array */
     /* get ct array which defines the consensus base pairs */
     ESL_ALLOC(ct,  sizeof(int)  * (msa->alen+1));
     ESL_ALLOC(ss_nopseudo, sizeof(char) * (msa->alen+1));
